@@ -230,3 +230,54 @@ func TestFindingF15_SilentMasking(t *testing.T) {
 		t.Errorf("%s: Marshal succeeded (%x): the out-of-range value was cut to the field width", c.name, b)
 	}
 }
+
+// F16 (open): a CCFB report block with exactly one metric block cannot be decoded from its own encoding
+// (fails on the pinned tree for n = 1 only).
+func TestFindingF16_CCFBSingleMetricBlock(t *testing.T) {
+	for n := 0; n <= 3; n++ {
+		in := CCFeedbackReport{SenderSSRC: 1, ReportTimestamp: 7, ReportBlocks: []CCFeedbackReportBlock{{
+			MediaSSRC: 2, BeginSequence: 10, MetricBlocks: make([]CCFeedbackMetricBlock, n),
+		}}}
+		for i := range in.ReportBlocks[0].MetricBlocks {
+			in.ReportBlocks[0].MetricBlocks[i] = CCFeedbackMetricBlock{Received: true, ECN: ECNECT1, ArrivalTimeOffset: uint16(i + 1)}
+		}
+		raw, err := in.Marshal()
+		if err != nil {
+			t.Fatalf("n=%d: Marshal: %v", n, err)
+		}
+		var out CCFeedbackReport
+		err = out.Unmarshal(raw)
+		got := -1
+		if err == nil && len(out.ReportBlocks) == 1 {
+			got = len(out.ReportBlocks[0].MetricBlocks)
+		}
+		if err != nil || got != n {
+			t.Errorf("a block with %d metric block(s) encodes to % x and decodes with err=%v to %d metric block(s)", n, raw, err, got)
+		}
+	}
+}
+
+// F17 (open): a REMB with a zero mantissa decodes to 2^(exp+23) instead of 0.
+func TestFindingF17_REMBZeroMantissa(t *testing.T) {
+	in := ReceiverEstimatedMaximumBitrate{Bitrate: 0}
+	raw, err := in.Marshal()
+	if err != nil {
+		t.Fatal(err)
+	}
+	var out ReceiverEstimatedMaximumBitrate
+	if err := out.Unmarshal(raw); err != nil {
+		t.Fatal(err)
+	}
+	if out.Bitrate != 0 {
+		t.Errorf("Bitrate 0 encodes to % x (exponent 0, mantissa 0) and decodes to %g", raw[17:20], out.Bitrate)
+	}
+	for _, e := range []byte{1, 47, 63} {
+		raw[17] = e << 2
+		if err := out.Unmarshal(raw); err != nil {
+			t.Fatal(err)
+		}
+		if out.Bitrate != 0 {
+			t.Errorf("exponent %d with mantissa 0 decodes to %g instead of 0", e, out.Bitrate)
+		}
+	}
+}
